@@ -20,7 +20,7 @@ def models(tier):
     alpha = []
     for c in (0, 1):
         alpha += [("m", c, "rh:1"), ("m", c, "rh:2"), ("eof", c), ("m", c, "dpr")]
-    alpha += [("ans", 0), ("ans", 1), ("ans", 2), ("ans", 3), ("ans2", 0), ("ans2", 1), ("accept",), ("m", 2, "cer_p0"), ("m", 2, "rh:1")]
+    alpha += [("ans", 0), ("ans", 1), ("ans", 2), ("ans", 3), ("ans2", 0), ("ans2", 1), ("ansnr", 0), ("ansnr", 1), ("accept",), ("m", 2, "cer_p0"), ("m", 2, "rh:1")]
     out.append(monitors.ScenarioModel("two-peers-equal-hop-by-hop-ids", BASE, alpha, MONS, max_socks=3,
                                       prelude=[("accept",), ("m", 0, "cer_p0"), ("accept",), ("m", 1, "cer_p1")]))
     # three peers
